@@ -175,9 +175,31 @@ fn tx_battery(tx: packed::Transaction) {
 }
 
 fn header_battery(h: packed::Header) {
+    header_battery_one(h.clone());
+    // the numeric fields of a structurally valid header are the peer's choice: every accepted header is walked again with
+    // each of them at directed extremes (compact targets whose mantissa vanishes / overflows, epoch fractions with length 0
+    // or index >= length, the largest number and timestamp)
+    for c in [0u32, 1, 0x00ff_ffff, 0x0080_0000, 0x0100_0001, 0x0100_ffff, 0x017f_ffff, 0x0200_00ff, 0x0200_8000, 0x0300_0001, 0x0380_0000,
+              0x2000_0001, 0x20ff_ffff, 0x2100_0001, 0x21ff_ffff, 0x2200_0100, 0xff00_0001, 0xffff_ffff] {
+        header_battery_one(h.clone().as_builder().raw(h.raw().as_builder().compact_target(c).build()).build());
+    }
+    for e in [0u64, 1, 0x0000_0100_0000_0000, 0x0000_0001_0000_0000, 0x0000_0100_0100_0000, 0x00ff_ffff_ffff_ffff, 0xff00_0000_0000_0000, u64::MAX] {
+        header_battery_one(h.clone().as_builder().raw(h.raw().as_builder().epoch(e).build()).build());
+    }
+    for n in [0u64, 1, u64::MAX - 1, u64::MAX] {
+        header_battery_one(h.clone().as_builder().raw(h.raw().as_builder().number(n).timestamp(n).build()).build());
+    }
+}
+
+fn header_battery_one(h: packed::Header) {
     let _ = (h.calc_header_hash(), h.calc_pow_hash(), h.difficulty());
     let v = h.into_view();
     let _ = (v.hash(), v.epoch(), v.number(), v.difficulty(), v.is_genesis());
+    let e = v.epoch();
+    let _ = (e.number(), e.index(), e.length(), e.is_well_formed(), e.full_value(), e.is_successor_of(e), e.is_genesis());
+    if e.length() != 0 {
+        let _ = e.to_rational(); // documented to panic for a zero length (every caller sits behind the epoch verifier)
+    }
 }
 
 fn block_battery(b: packed::Block) {
